@@ -351,11 +351,12 @@ func (proxy *PgProxy) ProxyClientConnection(ctx context.Context, errCh chan<- ba
 
 func (proxy *PgProxy) handleClientPacket(ctx context.Context, packet *PacketHandler, logger *log.Entry) (bool, error) {
 	// Let the protocol observer take a look at the packet, keeping note of it.
-	err := proxy.protocolState.HandleClientPacket(packet)
+	packetType, err := proxy.protocolState.HandleClientPacket(packet)
 	if err != nil {
 		return false, err
 	}
-	switch proxy.protocolState.LastPacketType() {
+	// not LastPacketType(): the database side may have noted a packet of its own meanwhile
+	switch packetType {
 	case ExecutePacketType:
 		executePacket, err := packet.GetExecuteData()
 		if err != nil {
@@ -496,7 +497,7 @@ func (proxy *PgProxy) handleQueryPacket(ctx context.Context, packet *PacketHandl
 		} else {
 			// create new logger to log full sql only once and repeat it in the next log messages
 			log := logger.WithField("sql", queryWithHiddenValues)
-			if proxy.protocolState.LastPacketType() == ParseStatementPacket {
+			if packet.IsParse() {
 				preparedStatement, err := packet.GetParseData()
 				if err != nil {
 					return false, err
@@ -888,7 +889,7 @@ func (proxy *PgProxy) ProxyDatabaseConnection(ctx context.Context, errCh chan<- 
 					errCh <- base.NewDBProxyError(err)
 					return
 				}
-			} else if err := proxy.protocolState.HandleDatabasePacket(packetHandler); err != nil {
+			} else if _, err := proxy.protocolState.HandleDatabasePacket(packetHandler); err != nil {
 				// The skipped packets are not forwarded, but the protocol observer still has to see them:
 				// CommandComplete/ErrorResponse of the failed statement removes its pending query. Otherwise
 				// the rows of all following statements would be processed with the settings of the failed one.
@@ -902,11 +903,12 @@ func (proxy *PgProxy) ProxyDatabaseConnection(ctx context.Context, errCh chan<- 
 
 func (proxy *PgProxy) handleDatabasePacket(ctx context.Context, packet *PacketHandler, logger *log.Entry) error {
 	// Let the protocol observer take a look at the packet, keeping note of it.
-	err := proxy.protocolState.HandleDatabasePacket(packet)
+	packetType, err := proxy.protocolState.HandleDatabasePacket(packet)
 	if err != nil {
 		return err
 	}
-	switch proxy.protocolState.LastPacketType() {
+	// not LastPacketType(): the client side may have noted a packet of its own meanwhile
+	switch packetType {
 	case DataPacket:
 		// If that's some sort of a packet with a query response inside it,
 		// decrypt and process the data in it.
